@@ -1,5 +1,6 @@
 import GaeaVerif.Lemmas.RouteLists
 import GaeaVerif.Lemmas.RouteCalendar
+import GaeaVerif.Lemmas.RouteLit
 import GaeaVerif.Gen.Consts
 /-
   C01 — Sharded reads are routed to every table that can hold a matching row.
@@ -25,10 +26,13 @@ structure LitsOK (r : Rule) (placeVal : Int → Int) (ls : List Lit) : Prop wher
   /-- `EqualStart(v, i)` only if every smaller value lives in an earlier table -/
   eqStart : r.isRange = true → ∀ l ∈ ls, l.eqStart = true → ∀ i v, l.place = some i → l.rank = some v →
       ∀ y : Int, y < v → placeVal y < i
+  /-- a literal that `FindTableIndex` places denotes exactly its `rank` (not a value with a fraction, not NULL) -/
+  placed_exact : ∀ l ∈ ls, ∀ i, l.place = some i → l.sem = .exact
 
 theorem LitsOK.sub {r : Rule} {pv : Int → Int} {ls ls' : List Lit} (h : LitsOK r pv ls)
     (hs : ∀ l ∈ ls', l ∈ ls) : LitsOK r pv ls' :=
-  ⟨fun l hl => h.place_den l (hs l hl), h.mono, fun hr l hl => h.eqStart hr l (hs l hl)⟩
+  ⟨fun l hl => h.place_den l (hs l hl), h.mono, fun hr l hl => h.eqStart hr l (hs l hl),
+    fun l hl => h.placed_exact l (hs l hl)⟩
 
 theorem inverse_holds (op : Cmp) (x v : Int) : op.inverse.holds x v = op.holds v x := by
   cases op <;> simp only [Cmp.inverse, Cmp.holds]
@@ -122,6 +126,44 @@ theorem allPlaces_ranks (r : Rule) (pv : Int → Int) (ls : List Lit) (ps : List
         obtain ⟨vs, hvs, his⟩ := ih is (hl.sub (fun l hl => by simp [hl])) hq
         obtain ⟨v, hv, hpv⟩ := hl.place_den l (by simp) i hp
         exact ⟨v :: vs, by simp [allRanks, hv, hvs], by simp [hpv, his]⟩
+
+theorem allPlaces_mem (ls : List Lit) (ps : List Int) (h : allPlaces ls = some ps) (l : Lit) (hl : l ∈ ls) :
+    ∃ j, l.place = some j := by
+  induction ls generalizing ps with
+  | nil => simp at hl
+  | cons a as ih =>
+    simp only [allPlaces] at h
+    cases h1 : a.place with
+    | none => simp [h1] at h
+    | some j =>
+      cases h2 : allPlaces as with
+      | none => simp [h1, h2] at h
+      | some js =>
+        simp at hl
+        rcases hl with rfl | hl
+        · exact ⟨j, h1⟩
+        · exact ih js h2 hl
+
+/-- a literal `FindTableIndex` does not place never narrows a comparison: when the
+    closure of `getFindTableIndexesFunc` answers at all, it answers with every sub table -/
+theorem find_unplaced (r : Rule) (op : Cmp) (on : Bool) (l : Lit) (is : List Int)
+    (hp : l.place = none) (hf : findTableIndexes r op on l = some is) : is = r.idxs := by
+  unfold findTableIndexes at hf
+  cases on
+  · simp at hf; exact hf.symm
+  · cases op <;> simp [hp] at hf
+    all_goals first
+      | exact hf.symm
+      | exact hf.2.symm
+
+/-- a list all of whose literals are placed holds only exactly denoted values -/
+theorem allPlaces_exact (r : Rule) (pv : Int → Int) (ls : List Lit) (ps : List Int)
+    (hex : ∀ l ∈ ls, ∀ i, l.place = some i → l.sem = .exact) (h : allPlaces ls = some ps) :
+    ls.all (fun l => l.sem == .exact) = true := by
+  rw [List.all_eq_true]
+  intro l hl
+  obtain ⟨j, hj⟩ := allPlaces_mem ls ps h l hl
+  simp [hex l hl j hj]
 
 theorem between_sound (r : Rule) (pv : Int → Int) (x : Int) (neg : Bool) (lo hi : Lit) (is : List Int)
     (hrow : RowOK r pv x) (hl : LitsOK r pv [lo, hi]) (hr : r.isRange = true)
@@ -255,7 +297,12 @@ theorem route_inv (r : Rule) (pv : Int → Int) (x : Int) (env : Cond → Option
     simp only [route] at h
     by_cases hg : r.isGlobal = true
     · simp [hg] at h
-    · simp only [hg, Bool.false_eq_true, ↓reduceIte, Option.map_eq_some_iff, Prod.mk.injEq, true_and] at h
+    · by_cases hw : lit.wide = true
+      · -- a literal the rule is not asked to place: every sub table
+        simp only [hg, hw, Bool.false_eq_true, ↓reduceIte, Option.some.injEq, Prod.mk.injEq, true_and] at h
+        subst h
+        exact ⟨hrow.sorted, fun _ => hrow.inIdxs⟩
+      simp only [hg, hw, Bool.false_eq_true, ↓reduceIte, Option.map_eq_some_iff, Prod.mk.injEq, true_and] at h
       obtain ⟨is, hf, rfl⟩ := h
       cases onShard with
       | false =>
@@ -265,48 +312,58 @@ theorem route_inv (r : Rule) (pv : Int → Int) (x : Int) (env : Cond → Option
         have hl' : LitsOK r pv [lit] := hl.sub (fun l h => by simpa [shardLits] using h)
         have := cmp_sound r pv x _ lit is hrow hl' hf
         refine ⟨this.1, ?_⟩
-        simp only [eval, Bool.not_true, Bool.false_eq_true, ↓reduceIte]
-        cases hrk : lit.rank with
+        cases hpl : lit.place with
         | none =>
-          -- a literal that is placed denotes a value; an unplaced one never prunes
+          -- an unplaced literal never prunes
           intro _
-          exact this.2.2 hrk
-        | some v =>
-          simp only [Option.some.injEq]
-          intro hx
-          apply this.2.1 v hrk
-          cases litLeft
-          · simpa using hx
-          · simp only [↓reduceIte] at hx ⊢; rw [inverse_holds]; exact hx
+          rw [find_unplaced r _ true lit is hpl hf]; exact hrow.inIdxs
+        | some j =>
+          -- a placed literal denotes exactly its rank
+          have hsem := hl'.placed_exact lit (by simp) j hpl
+          simp only [eval, Bool.not_true, Bool.false_eq_true, ↓reduceIte, hsem]
+          cases hrk : lit.rank with
+          | none =>
+            intro _
+            exact this.2.2 hrk
+          | some v =>
+            simp only [Option.some.injEq]
+            intro hx
+            apply this.2.1 v hrk
+            cases litLeft
+            · simpa using hx
+            · simp only [↓reduceIte] at hx ⊢; rw [inverse_holds]; exact hx
   | inList onShard neg ls =>
     simp only [route] at h
-    by_cases hc : (r.isGlobal || neg || !onShard) = true
+    by_cases hc : (r.isGlobal || neg || !onShard || ls.any (·.wide)) = true
     · simp only [hc, ↓reduceIte, Option.some.injEq, Prod.mk.injEq, true_and] at h
       subst h; exact ⟨hrow.sorted, fun _ => hrow.inIdxs⟩
     · simp only [hc, Bool.false_eq_true, ↓reduceIte, Option.map_eq_some_iff, Prod.mk.injEq, true_and] at h
       obtain ⟨ps, hps, rfl⟩ := h
-      simp only [Bool.or_eq_true, Bool.not_eq_eq_eq_not, Bool.not_true, not_or, Bool.not_eq_true,
-        Bool.not_eq_false] at hc
-      obtain ⟨⟨_, hneg⟩, hon⟩ := hc
+      rw [Bool.not_eq_true, Bool.or_eq_false_iff, Bool.or_eq_false_iff, Bool.or_eq_false_iff] at hc
+      obtain ⟨⟨⟨_, hneg⟩, hon⟩, _⟩ := hc
+      have hon : onShard = true := by simpa using hon
       subst hneg; subst hon
       have hl' : LitsOK r pv ls := hl.sub (fun l h => by simpa [shardLits] using h)
+      have hall := allPlaces_exact r pv ls ps hl'.placed_exact hps
       obtain ⟨vs, hvs, rfl⟩ := allPlaces_ranks r pv ls ps hl' hps
       refine ⟨sortDedup_sorted _, ?_⟩
-      simp only [eval, Bool.not_true, Bool.false_eq_true, ↓reduceIte, hvs, Option.some.injEq,
+      simp only [eval, Bool.not_true, Bool.false_eq_true, ↓reduceIte, hall, hvs, Option.some.injEq,
         Bool.bne_false]
       intro hx
       rw [sortDedup_mem, List.mem_map]
       exact ⟨x, by simpa using hx, rfl⟩
   | between onShard neg lo hi =>
     simp only [route] at h
-    by_cases hc : (r.isGlobal || !onShard || !r.isRange) = true
+    by_cases hc : (r.isGlobal || !onShard || !r.isRange || lo.wide || hi.wide) = true
     · simp only [hc, ↓reduceIte, Option.some.injEq, Prod.mk.injEq, true_and] at h
       subst h; exact ⟨hrow.sorted, fun _ => hrow.inIdxs⟩
     · simp only [hc, Bool.false_eq_true, ↓reduceIte, Option.map_eq_some_iff, Prod.mk.injEq, true_and] at h
       obtain ⟨is, hf, rfl⟩ := h
-      simp only [Bool.or_eq_true, Bool.not_eq_eq_eq_not, Bool.not_true, not_or, Bool.not_eq_true,
-        Bool.not_eq_false] at hc
-      obtain ⟨⟨_, hon⟩, hr⟩ := hc
+      rw [Bool.not_eq_true, Bool.or_eq_false_iff, Bool.or_eq_false_iff, Bool.or_eq_false_iff,
+        Bool.or_eq_false_iff] at hc
+      obtain ⟨⟨⟨⟨_, hon⟩, hr⟩, _⟩, _⟩ := hc
+      have hon : onShard = true := by simpa using hon
+      have hr : r.isRange = true := by simpa using hr
       subst hon
       have hl' : LitsOK r pv [lo, hi] := hl.sub (fun l h => by simpa [shardLits] using h)
       have hb := between_sound r pv x neg lo hi is hrow hl' hr hf
@@ -321,7 +378,10 @@ theorem route_inv (r : Rule) (pv : Int → Int) (x : Int) (env : Cond → Option
         | some e =>
           obtain ⟨a, ha, _⟩ := hl'.place_den lo (by simp) s hs
           obtain ⟨b, hb', _⟩ := hl'.place_den hi (by simp) e he
-          simp only [eval, Bool.not_true, Bool.false_eq_true, ↓reduceIte, ha, hb', Option.some.injEq]
+          have hslo := hl'.placed_exact lo (by simp) s hs
+          have hshi := hl'.placed_exact hi (by simp) e he
+          simp only [eval, Bool.not_true, Bool.false_eq_true, ↓reduceIte, hslo, hshi, beq_self_eq_true,
+            Bool.and_self, ha, hb', Option.some.injEq]
           exact hb.2 a b ha hb'
 
 /-- **C01 (routing is sound).** For every rule (any kind: `isRange`/`isGlobal`
@@ -393,23 +453,6 @@ theorem allPlaces_filter (ls : List Lit) (ps : List Int) (p : Lit → Bool) (h :
         · exact ⟨j :: qs, by simp only [allPlaces, h1, hqs]⟩
         · exact ⟨qs, hqs⟩
 
-theorem allPlaces_mem (ls : List Lit) (ps : List Int) (h : allPlaces ls = some ps) (l : Lit) (hl : l ∈ ls) :
-    ∃ j, l.place = some j := by
-  induction ls generalizing ps with
-  | nil => simp at hl
-  | cons a as ih =>
-    simp only [allPlaces] at h
-    cases h1 : a.place with
-    | none => simp [h1] at h
-    | some j =>
-      cases h2 : allPlaces as with
-      | none => simp [h1, h2] at h
-      | some js =>
-        simp at hl
-        rcases hl with rfl | hl
-        · exact ⟨j, h1⟩
-        · exact ih js h2 hl
-
 /-- **C01 (IN lists are split soundly).** For `k IN (v₁ … vₙ)` on the sharding
     column the statement sent to table `i` lists only the values placed in `i`.
     On every row stored in table `i` this narrower predicate has the same truth
@@ -452,7 +495,12 @@ def rangeRule (n : Int) : Rule :=
 
 theorem range_litsOK (limit n : Int) (hlim : 0 < limit) (vs : List Int) :
     LitsOK (rangeRule n) (· / limit) (vs.map (rangeLit limit n)) := by
-  refine ⟨?_, ?_, ?_⟩
+  refine ⟨?_, ?_, ?_, ?_⟩
+  rotate_right
+  · intro l hl i _
+    simp only [List.mem_map] at hl
+    obtain ⟨v, _, rfl⟩ := hl
+    rfl
   · intro l hl i hp
     simp only [List.mem_map] at hl
     obtain ⟨v, _, rfl⟩ := hl
@@ -500,9 +548,10 @@ theorem range_route_sound (limit n x : Int) (hlim : 0 < limit) (hx : 0 ≤ x ∧
 /-- hash, mod and the Mycat rules: nothing but "a literal is placed where rows
     with its value live" is needed (only `=` and `IN` prune). -/
 theorem hashlike_litsOK (r : Rule) (pv : Int → Int) (hr : r.isRange = false) (ls : List Lit)
-    (h : ∀ l ∈ ls, ∀ i, l.place = some i → ∃ v, l.rank = some v ∧ pv v = i) : LitsOK r pv ls :=
+    (h : ∀ l ∈ ls, ∀ i, l.place = some i → ∃ v, l.rank = some v ∧ pv v = i)
+    (hex : ∀ l ∈ ls, ∀ i, l.place = some i → l.sem = .exact) : LitsOK r pv ls :=
   ⟨h, fun hr' => by rw [hr] at hr'; exact absurd hr' (by decide),
-    fun hr' => by rw [hr] at hr'; exact absurd hr' (by decide)⟩
+    fun hr' => by rw [hr] at hr'; exact absurd hr' (by decide), hex⟩
 
 /-! ### Non-vacuity: concrete rules and a three-level condition tree -/
 
@@ -547,16 +596,19 @@ structure LitsOKOn (V : Int → Prop) (r : Rule) (pv : Int → Int) (ls : List L
   mono : r.isRange = true → ∀ a b : Int, V a → V b → a ≤ b → pv a ≤ pv b
   eqStart : r.isRange = true → ∀ l ∈ ls, l.eqStart = true → ∀ i v, l.place = some i → l.rank = some v →
       ∀ y : Int, V y → y < v → pv y < i
+  placed_exact : ∀ l ∈ ls, ∀ i, l.place = some i → l.sem = .exact
 
 theorem LitsOKOn.sub {V : Int → Prop} {r : Rule} {pv : Int → Int} {ls ls' : List Lit} (h : LitsOKOn V r pv ls)
     (hs : ∀ l ∈ ls', l ∈ ls) : LitsOKOn V r pv ls' :=
-  ⟨fun l hl => h.place_den l (hs l hl), h.mono, fun hr l hl => h.eqStart hr l (hs l hl)⟩
+  ⟨fun l hl => h.place_den l (hs l hl), h.mono, fun hr l hl => h.eqStart hr l (hs l hl),
+    fun l hl => h.placed_exact l (hs l hl)⟩
 
 theorem LitsOK.on {r : Rule} {pv : Int → Int} {ls : List Lit} (h : LitsOK r pv ls) :
     LitsOKOn (fun _ => True) r pv ls :=
   ⟨fun l hl i hp => by obtain ⟨v, hv, hpv⟩ := h.place_den l hl i hp; exact ⟨v, hv, trivial, hpv⟩,
    fun hr a b _ _ hab => h.mono hr a b hab,
-   fun hr l hl he i v hp hv y _ hy => h.eqStart hr l hl he i v hp hv y hy⟩
+   fun hr l hl he i v hp hv y _ hy => h.eqStart hr l hl he i v hp hv y hy,
+   h.placed_exact⟩
 
 theorem find_sorted (r : Rule) (i : Int) (ht : TableOK r i) (op : Cmp) (on : Bool) (l : Lit) (is : List Int)
     (hf : findTableIndexes r op on l = some is) : Sorted is := by
@@ -789,13 +841,20 @@ theorem jroute_inv (V : Int → Prop) (r : Rule) (pv : Int → Int) (i : Int) (e
       simp only [JCond.erase, route] at h
       by_cases hg : r.isGlobal = true
       · simp [hg] at h
-      · simp [hg, findTableIndexes] at h; subst h
-        exact ⟨ht.sorted, fun _ => ht.inIdxs⟩
+      · by_cases hw : lit.wide = true
+        · simp [hg, hw] at h; subst h
+          exact ⟨ht.sorted, fun _ => ht.inIdxs⟩
+        · simp [hg, hw, findTableIndexes] at h; subst h
+          exact ⟨ht.sorted, fun _ => ht.inIdxs⟩
     | key t =>
       simp only [JCond.erase, route] at h
       by_cases hg : r.isGlobal = true
       · simp [hg] at h
-      · simp only [hg, Bool.false_eq_true, ↓reduceIte, Option.map_eq_some_iff, Prod.mk.injEq, true_and] at h
+      · by_cases hw : lit.wide = true
+        · simp only [hg, hw, Bool.false_eq_true, ↓reduceIte, Option.some.injEq, Prod.mk.injEq, true_and] at h
+          subst h
+          exact ⟨ht.sorted, fun _ => ht.inIdxs⟩
+        simp only [hg, hw, Bool.false_eq_true, ↓reduceIte, Option.map_eq_some_iff, Prod.mk.injEq, true_and] at h
         obtain ⟨is, hf, rfl⟩ := h
         refine ⟨find_sorted r i ht _ true lit is hf, ?_⟩
         simp only [evalJ]
@@ -806,15 +865,22 @@ theorem jroute_inv (V : Int → Prop) (r : Rule) (pv : Int → Int) (i : Int) (e
           have hl' : LitsOKOn V r pv [lit] := hl.sub (fun l h => by simpa [jShardLits] using h)
           have := cmp_sound_on V r pv i x _ lit is ht hVx hpx hl' hf
           simp only
-          cases hrk : lit.rank with
-          | none => intro _; exact this.2 hrk
-          | some v =>
-            simp only [Option.some.injEq]
-            intro hxv
-            apply this.1 v hrk
-            cases litLeft
-            · simpa using hxv
-            · simp only [↓reduceIte] at hxv ⊢; rw [inverse_holds]; exact hxv
+          cases hpl : lit.place with
+          | none =>
+            intro _
+            rw [find_unplaced r _ true lit is hpl hf]; exact ht.inIdxs
+          | some j =>
+            have hsem := hl'.placed_exact lit (by simp) j hpl
+            simp only [hsem]
+            cases hrk : lit.rank with
+            | none => intro _; exact this.2 hrk
+            | some v =>
+              simp only [Option.some.injEq]
+              intro hxv
+              apply this.1 v hrk
+              cases litLeft
+              · simpa using hxv
+              · simp only [↓reduceIte] at hxv ⊢; rw [inverse_holds]; exact hxv
   | inList col neg ls =>
     cases col with
     | free => simp [JCond.erase, route] at h
@@ -824,15 +890,16 @@ theorem jroute_inv (V : Int → Prop) (r : Rule) (pv : Int → Int) (i : Int) (e
       exact ⟨ht.sorted, fun _ => ht.inIdxs⟩
     | key t =>
       simp only [JCond.erase, route] at h
-      by_cases hc : (r.isGlobal || neg || !true) = true
+      by_cases hc : (r.isGlobal || neg || !true || ls.any (·.wide)) = true
       · simp only [hc, ↓reduceIte, Option.some.injEq, Prod.mk.injEq, true_and] at h
         subst h; exact ⟨ht.sorted, fun _ => ht.inIdxs⟩
       · simp only [hc, Bool.false_eq_true, ↓reduceIte, Option.map_eq_some_iff, Prod.mk.injEq, true_and] at h
         obtain ⟨ps, hps, rfl⟩ := h
-        simp only [Bool.or_eq_true, Bool.not_true, Bool.or_false, not_or, Bool.not_eq_true] at hc
-        obtain ⟨_, hneg⟩ := hc
+        rw [Bool.not_eq_true, Bool.or_eq_false_iff, Bool.or_eq_false_iff, Bool.or_eq_false_iff] at hc
+        obtain ⟨⟨⟨_, hneg⟩, _⟩, _⟩ := hc
         subst hneg
         have hl' : LitsOKOn V r pv ls := hl.sub (fun l h => by simpa [jShardLits] using h)
+        have hall := allPlaces_exact r pv ls ps hl'.placed_exact hps
         obtain ⟨vs, hvs, rfl⟩ := allPlaces_ranks_on V r pv ls ps hl' hps
         refine ⟨sortDedup_sorted _, ?_⟩
         simp only [evalJ]
@@ -840,7 +907,7 @@ theorem jroute_inv (V : Int → Prop) (r : Rule) (pv : Int → Int) (i : Int) (e
         | none => simp
         | some x =>
           obtain ⟨_, hpx⟩ := hv t x hx
-          simp only [hvs, Option.some.injEq, Bool.bne_false]
+          simp only [hall, ↓reduceIte, hvs, Option.some.injEq, Bool.bne_false]
           intro hxm
           rw [sortDedup_mem, List.mem_map]
           exact ⟨x, by simpa using hxm, hpx⟩
@@ -853,14 +920,15 @@ theorem jroute_inv (V : Int → Prop) (r : Rule) (pv : Int → Int) (i : Int) (e
       exact ⟨ht.sorted, fun _ => ht.inIdxs⟩
     | key t =>
       simp only [JCond.erase, route] at h
-      by_cases hc : (r.isGlobal || !true || !r.isRange) = true
+      by_cases hc : (r.isGlobal || !true || !r.isRange || lo.wide || hi.wide) = true
       · simp only [hc, ↓reduceIte, Option.some.injEq, Prod.mk.injEq, true_and] at h
         subst h; exact ⟨ht.sorted, fun _ => ht.inIdxs⟩
       · simp only [hc, Bool.false_eq_true, ↓reduceIte, Option.map_eq_some_iff, Prod.mk.injEq, true_and] at h
         obtain ⟨is, hf, rfl⟩ := h
-        simp only [Bool.or_eq_true, Bool.not_true, Bool.or_false, not_or, Bool.not_eq_true,
-          Bool.not_eq_eq_eq_not] at hc
-        obtain ⟨_, hr⟩ := hc
+        rw [Bool.not_eq_true, Bool.or_eq_false_iff, Bool.or_eq_false_iff, Bool.or_eq_false_iff,
+          Bool.or_eq_false_iff] at hc
+        obtain ⟨⟨⟨⟨_, _⟩, hr⟩, _⟩, _⟩ := hc
+        have hr : r.isRange = true := by simpa using hr
         refine ⟨shardBetween_sorted r i ht neg lo hi is hf, ?_⟩
         simp only [evalJ]
         cases hx : vals t with
@@ -868,8 +936,16 @@ theorem jroute_inv (V : Int → Prop) (r : Rule) (pv : Int → Int) (i : Int) (e
         | some x =>
           obtain ⟨hVx, hpx⟩ := hv t x hx
           have hl' : LitsOKOn V r pv [lo, hi] := hl.sub (fun l h => by simpa [jShardLits] using h)
-          obtain ⟨a, b, ha, hb, hab⟩ := between_sound_on V r pv i x neg lo hi is ht hVx hpx hl' (by simpa using hr) hf
-          simp only [ha, hb, Option.some.injEq]
+          obtain ⟨a, b, ha, hb, hab⟩ := between_sound_on V r pv i x neg lo hi is ht hVx hpx hl' hr hf
+          have hex : lo.sem = .exact ∧ hi.sem = .exact := by
+            unfold shardBetween at hf
+            cases hs : lo.place with
+            | none => simp [hs] at hf
+            | some s =>
+              cases he : hi.place with
+              | none => simp [hs, he] at hf
+              | some e => exact ⟨hl'.placed_exact lo (by simp) s hs, hl'.placed_exact hi (by simp) e he⟩
+          simp only [hex.1, hex.2, beq_self_eq_true, Bool.and_self, ↓reduceIte, ha, hb, Option.some.injEq]
           exact hab
 
 theorem joinsLits_cons (j : JoinStep) (rest : List JoinStep) :
@@ -1136,7 +1212,12 @@ theorem str_litsOK (k : CalKind) (idxs : List Int) (civilOf : Int → ShardPlace
     (clockOf : Int → ShardPlace.Clock) (ss : List GoStr)
     (hss : ∀ s ∈ ss, (CalendarSpec.parseSpelling s).isSome = true) :
     LitsOKOn VStr (calRule idxs) (pvStr k) (ss.map (strLit k civilOf clockOf)) := by
-  refine ⟨?_, ?_, ?_⟩
+  refine ⟨?_, ?_, ?_, ?_⟩
+  rotate_right
+  · intro l hl i _
+    simp only [List.mem_map] at hl
+    obtain ⟨s, _, rfl⟩ := hl
+    simp only [strLit, calLit]; split <;> rfl
   · intro l hl i hp
     simp only [List.mem_map] at hl
     obtain ⟨s, hs, rfl⟩ := hl
@@ -1164,7 +1245,12 @@ theorem unix_litsOK (k : CalKind) (idxs : List Int) (civilOf : Int → ShardPlac
     (clockOf : Int → ShardPlace.Clock) (hz : ZoneOK civilOf clockOf) (vs : List Int)
     (hvs : ∀ v ∈ vs, VUnix civilOf v) :
     LitsOKOn (VUnix civilOf) (calRule idxs) (pvUnix k civilOf) (vs.map (unixLit k civilOf clockOf)) := by
-  refine ⟨?_, ?_, ?_⟩
+  refine ⟨?_, ?_, ?_, ?_⟩
+  rotate_right
+  · intro l hl i _
+    simp only [List.mem_map] at hl
+    obtain ⟨v, _, rfl⟩ := hl
+    simp only [unixLit, calLit]; split <;> rfl
   · intro l hl i hp
     simp only [List.mem_map] at hl
     obtain ⟨v, hv, rfl⟩ := hl
@@ -1342,6 +1428,11 @@ def hashRule (idxs : List Int) : Rule :=
 theorem find_litsOK (find : ShardPlace.Key → ShardPlace.Out Int) (idxs : List Int) (vs : List Int) :
     LitsOK (hashRule idxs) (pvFind find) (vs.map (findLit find)) := by
   apply hashlike_litsOK _ _ rfl
+  rotate_left
+  · intro l hl i _
+    simp only [List.mem_map] at hl
+    obtain ⟨v, _, rfl⟩ := hl
+    rfl
   intro l hl i hp
   simp only [List.mem_map] at hl
   obtain ⟨v, _, rfl⟩ := hl
@@ -1424,6 +1515,661 @@ theorem outer_join_on_prune_unsound_witness :
   simp [routeJoinStmt, routeJoins, routeJ, JCond.hasAmbiguous, JCond.erase, route, rangeRule, rangeLit,
     findTableIndexes, makeList, interList, inJoin, List.range, List.range.loop]
 
+
+/-! ### Literal kinds: what the planner routes by, and what MySQL compares the column with
+
+The literals of a statement are now given by kind and value (`RouteLit.SqlLit`:
+what the parser delivers).  `RouteLit.litOf fam ct find eqs q` is the literal the
+routing model sees for `q` on a rule of family `fam` whose `FindTableIndex` /
+`EqualStart` are `find` / `eqs`: `getShardingCompareValue` (`compareValue`)
+decides whether the rule is asked at all, `den ct q` is what MySQL compares a
+column of type `ct` with.  The theorems below have no hypothesis on the *kind*
+of a literal: hexadecimal, bit, decimal and float literals, NULL, and strings
+the rule does not read as MySQL does are covered (the planner keeps every sub
+table for them).  What remains excluded is a literal of the other type family
+than the column (the proxy does not know the column type): a string MySQL does
+not read as a number against an integer column of a rule that hashes text, an
+integer literal against a string or DATETIME column, a string against a unix
+time column. -/
+
+open GaeaVerif.RouteLit GaeaVerif.InsertStored in
+/-- The planner never prunes on a literal it does not hand to the rule:
+    `k op lit`, `k IN (… lit …)`, `k [NOT] BETWEEN lit AND …` keep every sub table. -/
+theorem wide_keeps_all (r : Rule) (hg : r.isGlobal = false) (l : Lit) (hw : l.wide = true) :
+    (∀ on ll op, route r (.cmp on ll op l) = some (true, r.idxs)) ∧
+    (∀ on neg ls, l ∈ ls → route r (.inList on neg ls) = some (true, r.idxs)) ∧
+    (∀ on neg o, route r (.between on neg l o) = some (true, r.idxs) ∧
+      route r (.between on neg o l) = some (true, r.idxs)) := by
+  refine ⟨fun on ll op => by simp [route, hg, hw], fun on neg ls hl => ?_, fun on neg o => ?_⟩
+  · have : ls.any (·.wide) = true := List.any_eq_true.mpr ⟨l, hl, hw⟩
+    simp [route, this]
+  · simp [route, hw]
+
+open GaeaVerif.RouteLit in
+/-- **the kinds the planner never routes by** (the repaired defect 1707815):
+    whatever the rule, the column type and the recorded answers of the rule, a
+    hexadecimal, bit, decimal or float literal or NULL compared with the
+    sharding column keeps every sub table -/
+theorem unrouted_kinds_keep_all (r : Rule) (hg : r.isGlobal = false) (fam : Fam) (ct : ColType) (q : SqlLit)
+    (p : Option Int) (e : Bool)
+    (hq : (∃ b, q = .hex b) ∨ (∃ b, q = .bit b) ∨ (∃ d s, q = .dec d s) ∨ (∃ b, q = .float b) ∨ q = .null)
+    (ll : Bool) (op : Cmp) :
+    routeStmt r (some (.cmp true ll op (mkLit fam ct q p e))) = some (interList r.idxs r.idxs) := by
+  have hw := (mkLit_wide fam ct q p e (wide_kinds fam q hq)).1
+  simp [routeStmt, (wide_keeps_all r hg _ hw).1]
+
+open GaeaVerif.RouteLit in
+/-- Rules that are not range rules: if every literal handed to the rule is
+    `Placed` (denotes exactly a value the rule places in the same table), the
+    well-formedness `route_sound` asks for holds. -/
+theorem litsOK_of_placed (r : Rule) (hr : r.isRange = false) (fam : Fam) (ct : ColType)
+    (find : ShardPlace.Key → ShardPlace.Out Int) (eqs : ShardPlace.Key → Int → Bool) (pv : Int → Int)
+    (qs : List SqlLit) (h : ∀ q ∈ qs, Placed fam ct find pv q) :
+    LitsOK r pv (qs.map (litOf fam ct find eqs)) := by
+  apply hashlike_litsOK r pv hr
+  · intro l hl i hp
+    simp only [List.mem_map] at hl
+    obtain ⟨q, hq, rfl⟩ := hl
+    obtain ⟨key, hc, hf, hrk, hsm, _⟩ := litOf_place fam ct find eqs q i hp
+    obtain ⟨v, hv, _, hpv⟩ := h q hq key i hc hf
+    exact ⟨v, by rw [hrk, hv], hpv⟩
+  · intro l hl i hp
+    simp only [List.mem_map] at hl
+    obtain ⟨q, hq, rfl⟩ := hl
+    obtain ⟨key, hc, hf, hrk, hsm, _⟩ := litOf_place fam ct find eqs q i hp
+    obtain ⟨v, _, hs, _⟩ := h q hq key i hc hf
+    rw [hsm, hs]
+
+open GaeaVerif.RouteLit in
+/-- **C01 for hash-like rules over literals of every kind.**  `find` is the
+    rule's `FindTableIndex`, `pv` the table of a row by the value of its
+    sharding column; the literals compared with the sharding column are any
+    list `qs` of SQL literals, each `Placed` (discharged below, family by
+    family). -/
+theorem litkinds_route_sound (fam : Fam) (ct : ColType) (find : ShardPlace.Key → ShardPlace.Out Int)
+    (eqs : ShardPlace.Key → Int → Bool) (pv : Int → Int) (idxs : List Int) (hs : Sorted idxs)
+    (x : Int) (hrow : pv x ∈ idxs) (env : Cond → Option Bool) (c : Cond)
+    (hc : ∃ qs : List SqlLit, shardLits c = qs.map (litOf fam ct find eqs) ∧ ∀ q ∈ qs, Placed fam ct find pv q)
+    (is : List Int) (h : routeStmt (hashRule idxs) (some c) = some is) (htrue : eval env x c = some true) :
+    pv x ∈ is := by
+  obtain ⟨qs, hqs, hpl⟩ := hc
+  have hb := sorted_bounds idxs hs _ hrow
+  exact route_sound (hashRule idxs) pv x env c ⟨hs, hrow, hb.1, hb.2⟩
+    (hqs ▸ litsOK_of_placed (hashRule idxs) rfl fam ct find eqs pv qs hpl) is h htrue
+
+open GaeaVerif.RouteLit GaeaVerif.InsertStored in
+/-- **C01 for the integer rules `mod` and `mycat_long`, every literal kind, no
+    residual hypothesis**: `f` is what the rule does with the int64 `NumValue`
+    gives it (`ksMod_is_viaNum`, `mycatLong_is_viaNum` in Props/C03.lean), the
+    row holds the integer `x` and lives where the rule places it.  Strings the
+    rule reads (`'7'`, `'+7'`, `'007'`) are placed where MySQL's reading of them
+    lives; ` ' 7'`, `'7.0'`, `'abc'`, `0x10`, `1.5`, `1e0`, NULL keep every table. -/
+theorem num_rules_route_sound (f : Int → ShardPlace.Out Int) (eqs : ShardPlace.Key → Int → Bool)
+    (idxs : List Int) (hs : Sorted idxs) (x : Int) (hrow : pvNum f x ∈ idxs)
+    (env : Cond → Option Bool) (c : Cond)
+    (hc : ∃ qs : List SqlLit, (∀ q ∈ qs, q.wf) ∧ shardLits c = qs.map (litOf .num .int (viaNum f) eqs))
+    (is : List Int) (h : routeStmt (hashRule idxs) (some c) = some is) (htrue : eval env x c = some true) :
+    pvNum f x ∈ is := by
+  obtain ⟨qs, hwf, hqs⟩ := hc
+  exact litkinds_route_sound .num .int (viaNum f) eqs (pvNum f) idxs hs x hrow env c
+    ⟨qs, hqs, fun q hq => num_placed f q (hwf q hq)⟩ is h htrue
+
+open GaeaVerif.RouteLit GaeaVerif.InsertStored in
+/-- **C01 for `mycat_mod`, every literal kind, no residual hypothesis** (`g`:
+    what the rule does with the big integer it reads, `mycatMod_is_viaBig`). -/
+theorem mycat_mod_route_sound (g : Int → ShardPlace.Out Int) (eqs : ShardPlace.Key → Int → Bool)
+    (idxs : List Int) (hs : Sorted idxs) (x : Int) (hrow : pvBig g x ∈ idxs)
+    (env : Cond → Option Bool) (c : Cond)
+    (hc : ∃ qs : List SqlLit, shardLits c = qs.map (litOf .big .int (viaBig g) eqs))
+    (is : List Int) (h : routeStmt (hashRule idxs) (some c) = some is) (htrue : eval env x c = some true) :
+    pvBig g x ∈ is := by
+  obtain ⟨qs, hqs⟩ := hc
+  exact litkinds_route_sound .big .int (viaBig g) eqs (pvBig g) idxs hs x hrow env c
+    ⟨qs, hqs, fun q _ => big_placed g q⟩ is h htrue
+
+open GaeaVerif.RouteLit GaeaVerif.InsertStored in
+/-- **C01 for the kingshard `hash` rule, integer key column** (after d3d5b3a):
+    every literal kind; of the strings, those MySQL reads as a number
+    (`looksLikeNumber`: `'7'`, `'007'`, `' 7'`, `'+7'`, `'7.0'`, `'7e0'` …).  A
+    string MySQL does not read as a number is compared with an integer column
+    only under the warning "Truncated incorrect DOUBLE value"; the rule places
+    it by the checksum of its text, for the string columns it also serves. -/
+theorem hash_route_sound_intcol (n : Nat) (hn : n ≠ 0) (eqs : ShardPlace.Key → Int → Bool)
+    (idxs : List Int) (hs : Sorted idxs) (x : Int) (hrow : pvHash n x ∈ idxs)
+    (env : Cond → Option Bool) (c : Cond)
+    (hc : ∃ qs : List SqlLit, (∀ q ∈ qs, q.wf) ∧ (∀ s, SqlLit.str s ∈ qs → Insert.looksLikeNumber s = true) ∧
+      shardLits c = qs.map (litOf .hash .int (HashShard.FindForKey n) eqs))
+    (is : List Int) (h : routeStmt (hashRule idxs) (some c) = some is) (htrue : eval env x c = some true) :
+    pvHash n x ∈ is := by
+  obtain ⟨qs, hwf, hnum, hqs⟩ := hc
+  exact litkinds_route_sound .hash .int (HashShard.FindForKey n) eqs (pvHash n) idxs hs x hrow env c
+    ⟨qs, hqs, fun q hq => ksHash_placed_int n hn q (hwf q hq) (fun s hs' => hnum s (hs' ▸ hq))⟩ is h htrue
+
+open GaeaVerif.RouteLit in
+/-- **C01 for a string key column, any rule that is not a range rule** (`hash`,
+    `mycat_string`, `mycat_murmur`): the row holds the byte string `s` (compared
+    byte by byte) and lives where the rule places that string; string,
+    hexadecimal and bit literals denote their bytes, decimal / float literals
+    and NULL keep every table.  Integer literals are excluded: MySQL compares
+    them with a string column by reading every row as a number. -/
+theorem strcol_route_sound (fam : Fam) (find : ShardPlace.Key → ShardPlace.Out Int)
+    (eqs : ShardPlace.Key → Int → Bool) (idxs : List Int) (hs : Sorted idxs)
+    (s : ShardGo.GoStr) (hrow : pvStrCol find (encodeStr s : Nat) ∈ idxs)
+    (env : Cond → Option Bool) (c : Cond)
+    (hc : ∃ qs : List SqlLit, (∀ q ∈ qs, q.wf) ∧ (∀ q ∈ qs, (∀ v, q ≠ .int v) ∧ (∀ v, q ≠ .uint v)) ∧
+      shardLits c = qs.map (litOf fam .str find eqs))
+    (is : List Int) (h : routeStmt (hashRule idxs) (some c) = some is)
+    (htrue : eval env (encodeStr s : Nat) c = some true) :
+    pvStrCol find (encodeStr s : Nat) ∈ is := by
+  obtain ⟨qs, hwf, hstr, hqs⟩ := hc
+  exact litkinds_route_sound fam .str find eqs (pvStrCol find) idxs hs _ hrow env c
+    ⟨qs, hqs, fun q hq => strcol_placed fam find q (hwf q hq) (hstr q hq)⟩ is h htrue
+
+open GaeaVerif.RouteLit GaeaVerif.InsertStored in
+/-- **mycat_string / mycat_murmur, integer key column.**  FULL STATEMENT, NOT
+    TRUE: the same without `hcanon` (`mycat_text_numeric_string_witness`; known
+    finding `mycat-numeric-string-routed-as-text`, Mycat-compatible and right
+    for string key columns, not repaired).  Proved: every literal kind, with
+    the string literals in the decimal spelling of the integer they denote. -/
+theorem text_route_sound_intcol_partial (f : ShardGo.GoStr → ShardPlace.Out Int)
+    (eqs : ShardPlace.Key → Int → Bool) (idxs : List Int) (hs : Sorted idxs) (x : Int)
+    (hrow : pvText f x ∈ idxs) (env : Cond → Option Bool) (c : Cond)
+    (hc : ∃ qs : List SqlLit,
+      (∀ s, SqlLit.str s ∈ qs → ∃ n, mysqlInt s = some n ∧ s = ShardGo.fmtInt n) ∧
+      shardLits c = qs.map (litOf .text .int (viaStr f) eqs))
+    (is : List Int) (h : routeStmt (hashRule idxs) (some c) = some is) (htrue : eval env x c = some true) :
+    pvText f x ∈ is := by
+  obtain ⟨qs, hcanon, hqs⟩ := hc
+  exact litkinds_route_sound .text .int (viaStr f) eqs (pvText f) idxs hs x hrow env c
+    ⟨qs, hqs, fun q hq => text_placed_int_partial f q (fun s hs' => hcanon s (hs' ▸ hq))⟩ is h htrue
+
+/-- two partitions of 512 slots -/
+def exSegment2 : List Int := List.replicate 512 0 ++ List.replicate 512 1
+
+open GaeaVerif.RouteLit GaeaVerif.ShardPlace in
+set_option maxRecDepth 10000 in
+/-- **Known finding `mycat-numeric-string-routed-as-text` (not repaired)**:
+    mycat_string (hash of the whole key, two partitions) hands the string
+    `'007'` to the rule, which places its text in table 1; MySQL compares an
+    integer column with 7, and the row 7 lives in table 0: `k = '007'` is TRUE
+    on a row outside the routed tables. -/
+theorem mycat_text_numeric_string_witness :
+    litOf .text .int (MycatPartitionStringShard.FindForKey exSegment2 0 0) (fun _ _ => false) (.str [48, 48, 55]) =
+      { rank := some 7, place := some 1, eqStart := false } ∧
+    routeStmt (hashRule [0, 1]) (some (.cmp true false .eq { rank := some 7, place := some 1, eqStart := false })) =
+      some [1] ∧
+    eval (fun _ => none) 7 (.cmp true false .eq { rank := some 7, place := some 1, eqStart := false }) = some true ∧
+    MycatPartitionStringShard.FindForKey exSegment2 0 0 (.int64 7) = .ok 0 := by
+  refine ⟨by decide, ?_, by decide, by decide⟩
+  simp [routeStmt, route, hashRule, findTableIndexes, interList]
+
+/-- the defect repaired by 1707815 as a regression witness on the model: had the
+    planner handed `0x10` to a hash rule of 4 tables as the text `x'10'`
+    (placed in table 3), `k = 0x10`, TRUE on the row 16, would have skipped
+    the table 0 of that row -/
+theorem hex_placed_by_text_unsound_witness :
+    let l : Lit := { rank := some 16, place := some 3, eqStart := false }
+    routeStmt (hashRule [0, 1, 2, 3]) (some (.cmp true false .eq l)) = some [3] ∧
+    eval (fun _ => none) 16 (.cmp true false .eq l) = some true ∧ RouteLit.pvHash 4 16 = 0 := by
+  refine ⟨?_, by decide, by decide⟩
+  simp [routeStmt, route, hashRule, findTableIndexes, interList]
+
+open GaeaVerif.RouteLit in
+/-- and what the model of the repaired code does with it: `den` says 16, the
+    literal is not routed by, every table is kept -/
+example :
+    mkLit .hash .int (.hex [16]) none false =
+      { rank := some 16, place := none, eqStart := false, wide := true } ∧
+    routeStmt (hashRule [0, 1, 2, 3]) (some (.cmp true false .eq (mkLit .hash .int (.hex [16]) none false))) =
+      some [0, 1, 2, 3] := by
+  refine ⟨by decide, ?_⟩
+  have : (mkLit .hash .int (.hex [16]) none false).wide = true := by decide
+  simp [routeStmt, route, hashRule, this, interList]
+
+open GaeaVerif.RouteLit in
+/-- `k < 1.5` is TRUE on the rows 0 and 1 and on no other; `k = 1.5` on none;
+    `k IN (1, NULL)` is TRUE on 1 and NULL elsewhere; `k NOT IN (1, NULL)` is
+    never TRUE -/
+example :
+    let l := mkLit .num .int (.dec 15 1) none false
+    let n := mkLit .num .int .null none false
+    let one : Lit := { rank := some 1, place := some 1, eqStart := false }
+    eval (fun _ => none) 1 (.cmp true false .lt l) = some true ∧
+    eval (fun _ => none) 2 (.cmp true false .lt l) = some false ∧
+    eval (fun _ => none) 1 (.cmp true false .eq l) = some false ∧
+    eval (fun _ => none) 1 (.cmp true true .lt l) = some false ∧
+    eval (fun _ => none) 1 (.inList true false [one, n]) = some true ∧
+    eval (fun _ => none) 2 (.inList true false [one, n]) = none ∧
+    eval (fun _ => none) 2 (.inList true true [one, n]) = none ∧
+    eval (fun _ => none) 1 (.inList true true [one, n]) = some false ∧
+    eval (fun _ => none) 1 (.between true false one l) = some true ∧
+    eval (fun _ => none) 2 (.between true false one l) = some false := by
+  decide
+
+
+/-! #### `range` rules over literals of every kind -/
+
+/-- `NumRangeShard.FindForKey` for `n` tables of `limit` rows (the abstraction of `rangeLit`) -/
+def rangeFind (limit n : Int) : ShardPlace.Key → ShardPlace.Out Int :=
+  InsertStored.viaNum fun v => if 0 ≤ v ∧ v < n * limit then .ok (v / limit) else .err .keyOutOfRange
+
+/-- `NumRangeShard.EqualStart`: `Shards[index].Start == NumValue(key)` -/
+def rangeEqs (limit : Int) (key : ShardPlace.Key) (i : Int) : Bool :=
+  match ShardPlace.NumValue key with
+  | .ok v => v == i * limit
+  | _ => false
+
+open GaeaVerif.RouteLit GaeaVerif.InsertStored GaeaVerif.ShardGo GaeaVerif.ShardPlace in
+/-- a literal an integer rule places on a non-negative int64 denotes exactly that integer -/
+theorem num_rank (q : SqlLit) (hq : q.wf) (key : Key) (v : Int) (hc : compareValue .num q = some key)
+    (hv : NumValue key = .ok v) (h0 : 0 ≤ v) : (den .int q).rank = some v ∧ (den .int q).sem = .exact := by
+  cases q with
+  | int w =>
+    simp only [compareValue, Option.some.injEq] at hc; subst hc
+    simp only [NumValue, Out.ok.injEq] at hv; subst hv
+    exact ⟨rfl, rfl⟩
+  | uint u =>
+    simp only [compareValue, Option.some.injEq] at hc; subst hc
+    simp only [NumValue, u64ToI64, Out.ok.injEq] at hv
+    simp only [SqlLit.wf] at hq
+    have : (u : Int) = v := by unfold wrap64 at hv; omega
+    subst this
+    exact ⟨rfl, rfl⟩
+  | str s =>
+    simp only [compareValue] at hc
+    cases hp : parseInt64 s with
+    | none => simp [hp] at hc
+    | some m =>
+      simp only [hp, Option.isNone_some, Bool.false_eq_true, ↓reduceIte, Option.some.injEq] at hc; subst hc
+      simp only [NumValue, hp, Out.ok.injEq] at hv; subst hv
+      have hm := mysqlInt_of_parseInt64 s m hp
+      simp only [den]; rw [strNum_of_mysqlInt s m hm]
+      exact ⟨rfl, rfl⟩
+  | hex bs => simp [compareValue] at hc
+  | bit bs => simp [compareValue] at hc
+  | dec d sc => simp [compareValue] at hc
+  | float b => simp [compareValue] at hc
+  | null => simp [compareValue] at hc
+
+open GaeaVerif.RouteLit GaeaVerif.InsertStored GaeaVerif.ShardPlace in
+/-- what `rangeFind` answers -/
+theorem rangeFind_ok (limit n : Int) (key : Key) (i : Int) (h : rangeFind limit n key = .ok i) :
+    ∃ v, NumValue key = .ok v ∧ 0 ≤ v ∧ v < n * limit ∧ i = v / limit := by
+  unfold rangeFind viaNum at h
+  cases hv : NumValue key with
+  | ok v =>
+    simp only [hv] at h
+    split at h
+    · rename_i hr
+      simp only [Out.ok.injEq] at h
+      exact ⟨v, rfl, hr.1, hr.2, h.symm⟩
+    · simp at h
+  | err k => simp [hv] at h
+  | panic => simp [hv] at h
+
+open GaeaVerif.RouteLit in
+/-- **Well-formedness of `range` rules for literals of every kind.** -/
+theorem range_litsOK_kinds (limit n : Int) (hlim : 0 < limit) (qs : List SqlLit) (hwf : ∀ q ∈ qs, q.wf) :
+    LitsOK (rangeRule n) (· / limit) (qs.map (litOf .num .int (rangeFind limit n) (rangeEqs limit))) := by
+  refine ⟨?_, ?_, ?_, ?_⟩
+  · intro l hl i hp
+    simp only [List.mem_map] at hl
+    obtain ⟨q, hq, rfl⟩ := hl
+    obtain ⟨key, hc, hf, hrk, _, _⟩ := litOf_place _ _ _ _ q i hp
+    obtain ⟨v, hv, h0, _, hi⟩ := rangeFind_ok limit n key i hf
+    exact ⟨v, by rw [hrk, (num_rank q (hwf q hq) key v hc hv h0).1], hi.symm⟩
+  · intro _ a b hab
+    exact Int.ediv_le_ediv hlim hab
+  · intro _ l hl he i w hp hw y hy
+    simp only [List.mem_map] at hl
+    obtain ⟨q, hq, rfl⟩ := hl
+    obtain ⟨key, hc, hf, hrk, _, heq⟩ := litOf_place _ _ _ _ q i hp
+    obtain ⟨v, hv, h0, _, hi⟩ := rangeFind_ok limit n key i hf
+    have hvw : v = w := by
+      have := (num_rank q (hwf q hq) key v hc hv h0).1
+      rw [hrk, this] at hw; simpa using hw
+    subst hvw
+    rw [heq] at he
+    simp only [rangeEqs, hv, beq_iff_eq] at he
+    show y / limit < i
+    have h1 : y < i * limit := by omega
+    exact (Int.ediv_lt_iff_lt_mul hlim).mpr h1
+  · intro l hl i hp
+    simp only [List.mem_map] at hl
+    obtain ⟨q, hq, rfl⟩ := hl
+    obtain ⟨key, hc, hf, _, hsm, _⟩ := litOf_place _ _ _ _ q i hp
+    obtain ⟨v, hv, h0, _, _⟩ := rangeFind_ok limit n key i hf
+    rw [hsm, (num_rank q (hwf q hq) key v hc hv h0).2]
+
+open GaeaVerif.RouteLit in
+/-- **C01 for `range` rules, every literal kind, no residual hypothesis**: with
+    `n` tables of `limit` rows, every accepted statement whose WHERE is TRUE on a
+    row with key `x` is routed to the table `x / limit` of the row, whatever
+    literals (integers, strings, hexadecimal, bit, decimal, float, NULL) it
+    compares the sharding column with in `=  !=  <  <=  >  >=`, IN and BETWEEN. -/
+theorem range_route_sound_kinds (limit n x : Int) (hlim : 0 < limit) (hx : 0 ≤ x ∧ x < n * limit)
+    (env : Cond → Option Bool) (c : Cond)
+    (hc : ∃ qs : List SqlLit, (∀ q ∈ qs, q.wf) ∧
+      shardLits c = qs.map (litOf .num .int (rangeFind limit n) (rangeEqs limit)))
+    (is : List Int) (h : routeStmt (rangeRule n) (some c) = some is) (htrue : eval env x c = some true) :
+    x / limit ∈ is := by
+  obtain ⟨qs, hwf, hqs⟩ := hc
+  exact route_sound (rangeRule n) (· / limit) x env c (range_rowOK limit n x hlim hx)
+    (hqs ▸ range_litsOK_kinds limit n hlim qs hwf) is h htrue
+
+open GaeaVerif.RouteLit in
+/-- on integer literals `litOf` is the `rangeLit` of the first instance -/
+example : litOf .num .int (rangeFind 100 4) (rangeEqs 100) (.int 200) = rangeLit 100 4 200 ∧
+    litOf .num .int (rangeFind 100 4) (rangeEqs 100) (.str [50, 48, 48]) = rangeLit 100 4 200 ∧
+    litOf .num .int (rangeFind 100 4) (rangeEqs 100) (.str [32, 50, 48, 48]) =
+      { rank := some 200, place := none, eqStart := false, wide := true } ∧
+    litOf .num .int (rangeFind 100 4) (rangeEqs 100) (.dec 1505 1) =
+      { rank := some 150, place := none, eqStart := false, wide := true, sem := .frac } := by
+  decide
+
+/-! #### calendar rules over literals of every kind -/
+
+theorem LitsOKOn.of_placed {V : Int → Prop} {r : Rule} {pv : Int → Int} {ls ls' : List Lit}
+    (h : LitsOKOn V r pv ls) (hs : ∀ l ∈ ls', ∀ i, l.place = some i → l ∈ ls) : LitsOKOn V r pv ls' :=
+  ⟨fun l hl i hp => h.place_den l (hs l hl i hp) i hp, h.mono,
+   fun hr l hl he i v hp hv => h.eqStart hr l (hs l hl i hp) he i v hp hv,
+   fun l hl i hp => h.placed_exact l (hs l hl i hp) i hp⟩
+
+theorem packDT_eq : RouteLit.packDT = pack := by funext c; rfl
+
+open GaeaVerif.RouteLit in
+/-- the literal of a calendar rule for the SQL literal `q` -/
+def calSqlLit (k : CalKind) (civilOf : Int → ShardPlace.Civil) (clockOf : Int → ShardPlace.Clock) (ct : ColType)
+    (q : SqlLit) : Lit :=
+  litOf .date ct (k.find civilOf) (fun key i => k.equalStart civilOf clockOf key i == .ok true) q
+
+open GaeaVerif.RouteLit in
+theorem calSqlLit_str (k : CalKind) (civilOf : Int → ShardPlace.Civil) (clockOf : Int → ShardPlace.Clock)
+    (s : GoStr) : calSqlLit k civilOf clockOf .datetime (.str s) = strLit k civilOf clockOf s := by
+  simp only [calSqlLit, litOf, compareValue, strLit, calLit]
+  cases k.find civilOf (.str s) <;> simp [mkLit, isWide, compareValue, den, packDT_eq]
+
+open GaeaVerif.RouteLit in
+theorem calSqlLit_int (k : CalKind) (civilOf : Int → ShardPlace.Civil) (clockOf : Int → ShardPlace.Clock)
+    (v : Int) : calSqlLit k civilOf clockOf .int (.int v) = unixLit k civilOf clockOf v := by
+  simp only [calSqlLit, litOf, compareValue, unixLit, calLit]
+  cases k.find civilOf (.int64 v) <;> simp [mkLit, isWide, compareValue, den]
+
+open GaeaVerif.RouteLit in
+/-- the literals of a statement on a DATETIME sharding column: strings in an
+    accepted spelling, and any literal of a kind the planner does not route by;
+    integer literals are excluded (the rule reads them as unix times, MySQL as
+    `YYYYMMDDhhmmss`) -/
+def DatetimeLit (q : SqlLit) : Prop :=
+  (∀ v, q ≠ .int v) ∧ (∀ v, q ≠ .uint v) ∧ ∀ s, q = .str s → (CalendarSpec.parseSpelling s).isSome = true
+
+open GaeaVerif.RouteLit in
+/-- the literals of a statement on an integer (unix time) sharding column:
+    timestamps of the years 0 … 9999, and any literal of a kind the planner does
+    not route by; strings are excluded (the rule reads them as dates) -/
+def UnixLit (civilOf : Int → ShardPlace.Civil) (q : SqlLit) : Prop :=
+  (∀ s, q ≠ .str s) ∧ (∀ v, q ≠ .uint v) ∧ ∀ v, q = .int v → VUnix civilOf v
+
+open GaeaVerif.RouteLit in
+theorem calSqlLit_unplaced (k : CalKind) (civilOf : Int → ShardPlace.Civil) (clockOf : Int → ShardPlace.Clock)
+    (ct : ColType) (q : SqlLit) (hq : (∀ v, q ≠ .int v) ∧ (∀ v, q ≠ .uint v) ∧ (∀ s, q ≠ .str s)) :
+    (calSqlLit k civilOf clockOf ct q).place = none := by
+  cases q with
+  | int v => exact absurd rfl (hq.1 v)
+  | uint v => exact absurd rfl (hq.2.1 v)
+  | str s => exact absurd rfl (hq.2.2 s)
+  | hex b => rfl
+  | bit b => rfl
+  | dec d sc => rfl
+  | float b => rfl
+  | null => rfl
+
+open GaeaVerif.RouteLit in
+theorem str_litsOK_kinds (k : CalKind) (idxs : List Int) (civilOf : Int → ShardPlace.Civil)
+    (clockOf : Int → ShardPlace.Clock) (qs : List SqlLit) (hqs : ∀ q ∈ qs, DatetimeLit q) :
+    LitsOKOn VStr (calRule idxs) (pvStr k) (qs.map (calSqlLit k civilOf clockOf .datetime)) := by
+  let ss : List GoStr := qs.filterMap fun q => match q with | .str s => some s | _ => none
+  have hss : ∀ s ∈ ss, (CalendarSpec.parseSpelling s).isSome = true := by
+    intro s hs
+    simp only [ss, List.mem_filterMap] at hs
+    obtain ⟨q, hq, hqs'⟩ := hs
+    cases q <;> simp at hqs'
+    subst hqs'
+    exact (hqs _ hq).2.2 _ rfl
+  refine (str_litsOK k idxs civilOf clockOf ss hss).of_placed ?_
+  intro l hl i hp
+  simp only [List.mem_map] at hl ⊢
+  obtain ⟨q, hq, rfl⟩ := hl
+  cases q with
+  | str s =>
+    refine ⟨s, ?_, (calSqlLit_str k civilOf clockOf s).symm⟩
+    simp only [ss, List.mem_filterMap]
+    exact ⟨.str s, hq, rfl⟩
+  | int v => exact absurd rfl ((hqs _ hq).1 v)
+  | uint v => exact absurd rfl ((hqs _ hq).2.1 v)
+  | hex b => simp [calSqlLit_unplaced k civilOf clockOf .datetime (.hex b) (by simp)] at hp
+  | bit b => simp [calSqlLit_unplaced k civilOf clockOf .datetime (.bit b) (by simp)] at hp
+  | dec d sc => simp [calSqlLit_unplaced k civilOf clockOf .datetime (.dec d sc) (by simp)] at hp
+  | float b => simp [calSqlLit_unplaced k civilOf clockOf .datetime (.float b) (by simp)] at hp
+  | null => simp [calSqlLit_unplaced k civilOf clockOf .datetime .null (by simp)] at hp
+
+open GaeaVerif.RouteLit in
+theorem unix_litsOK_kinds (k : CalKind) (idxs : List Int) (civilOf : Int → ShardPlace.Civil)
+    (clockOf : Int → ShardPlace.Clock) (hz : ZoneOK civilOf clockOf) (qs : List SqlLit)
+    (hqs : ∀ q ∈ qs, UnixLit civilOf q) :
+    LitsOKOn (VUnix civilOf) (calRule idxs) (pvUnix k civilOf) (qs.map (calSqlLit k civilOf clockOf .int)) := by
+  let vs : List Int := qs.filterMap fun q => match q with | .int v => some v | _ => none
+  have hvs : ∀ v ∈ vs, VUnix civilOf v := by
+    intro v hv
+    simp only [vs, List.mem_filterMap] at hv
+    obtain ⟨q, hq, hqs'⟩ := hv
+    cases q <;> simp at hqs'
+    subst hqs'
+    exact (hqs _ hq).2.2 _ rfl
+  refine (unix_litsOK k idxs civilOf clockOf hz vs hvs).of_placed ?_
+  intro l hl i hp
+  simp only [List.mem_map] at hl ⊢
+  obtain ⟨q, hq, rfl⟩ := hl
+  cases q with
+  | int v =>
+    refine ⟨v, ?_, (calSqlLit_int k civilOf clockOf v).symm⟩
+    simp only [vs, List.mem_filterMap]
+    exact ⟨.int v, hq, rfl⟩
+  | str s => exact absurd rfl ((hqs _ hq).1 s)
+  | uint v => exact absurd rfl ((hqs _ hq).2.1 v)
+  | hex b => simp [calSqlLit_unplaced k civilOf clockOf .int (.hex b) (by simp)] at hp
+  | bit b => simp [calSqlLit_unplaced k civilOf clockOf .int (.bit b) (by simp)] at hp
+  | dec d sc => simp [calSqlLit_unplaced k civilOf clockOf .int (.dec d sc) (by simp)] at hp
+  | float b => simp [calSqlLit_unplaced k civilOf clockOf .int (.float b) (by simp)] at hp
+  | null => simp [calSqlLit_unplaced k civilOf clockOf .int .null (by simp)] at hp
+
+open GaeaVerif.RouteLit in
+/-- **C01 for calendar rules over literals of every kind** (`calendar_route_sound`
+    with the literals given by kind and value): DATETIME columns with strings in
+    the accepted spellings, integer columns with unix times (zone with the fixed
+    offset `off`), and in both cases hexadecimal, bit, decimal and float literals
+    and NULL anywhere — `k > 2016.5` keeps every period (repaired defect). -/
+theorem calendar_route_sound_kinds (k : CalKind) (idxs : List Int) (hs : Sorted idxs) (off : Int) :
+    (∀ (x : CalendarSpec.DateTime), x.valid = true →
+      k.num { year := x.year, month := x.month, day := x.day } ∈ idxs →
+      ∀ (env : Cond → Option Bool) (c : Cond),
+        (∃ qs : List SqlLit, (∀ q ∈ qs, DatetimeLit q) ∧ shardLits c =
+          qs.map (calSqlLit k (ShardPlace.civilOfUnix off) (ShardPlace.clockOfUnix off) .datetime)) →
+        ∀ is : List Int, routeStmt (calRule idxs) (some c) = some is → eval env (pack x) c = some true →
+        k.num { year := x.year, month := x.month, day := x.day } ∈ is) ∧
+    (∀ (x : Int), VUnix (ShardPlace.civilOfUnix off) x → k.num (ShardPlace.civilOfUnix off x) ∈ idxs →
+      ∀ (env : Cond → Option Bool) (c : Cond),
+        (∃ qs : List SqlLit, (∀ q ∈ qs, UnixLit (ShardPlace.civilOfUnix off) q) ∧ shardLits c =
+          qs.map (calSqlLit k (ShardPlace.civilOfUnix off) (ShardPlace.clockOfUnix off) .int)) →
+        ∀ is : List Int, routeStmt (calRule idxs) (some c) = some is → eval env x c = some true →
+        k.num (ShardPlace.civilOfUnix off x) ∈ is) := by
+  refine ⟨?_, ?_⟩
+  · intro x hx hrow env c hc is h htrue
+    obtain ⟨qs, hqs, hlits⟩ := hc
+    rw [← pack_num k x hx] at hrow ⊢
+    have ht := calRule_tableOK idxs hs _ hrow
+    exact route_sound_on VStr (calRule idxs) (pvStr k) (pack x) env c
+      ⟨ht.sorted, ht.inIdxs, ht.firstLe, ht.leLast⟩ ⟨x, hx, rfl⟩
+      (hlits ▸ str_litsOK_kinds k idxs _ _ qs hqs) is h htrue
+  · intro x hx hrow env c hc is h htrue
+    obtain ⟨qs, hqs, hlits⟩ := hc
+    have ht := calRule_tableOK idxs hs _ hrow
+    exact route_sound_on (VUnix _) (calRule idxs) (pvUnix k _) x env c
+      ⟨ht.sorted, ht.inIdxs, ht.firstLe, ht.leLast⟩ hx
+      (hlits ▸ unix_litsOK_kinds k idxs _ _ (fixedZone_ok off) qs hqs) is h htrue
+
+open GaeaVerif.RouteLit in
+/-- `k > 2016.5` on a date_year table 2014 … 2017: every period is kept (the
+    pinned code placed the text "2016.5" in 2016 and skipped 2014 and 2015) -/
+example :
+    let l := calSqlLit .year (ShardPlace.civilOfUnix 0) (ShardPlace.clockOfUnix 0) .datetime (.dec 20165 1)
+    l.wide = true ∧ routeStmt (calRule [2014, 2015, 2016, 2017]) (some (.cmp true false .gt l)) =
+      some [2014, 2015, 2016, 2017] := by
+  refine ⟨by decide, ?_⟩
+  have : (calSqlLit .year (ShardPlace.civilOfUnix 0) (ShardPlace.clockOfUnix 0) .datetime (.dec 20165 1)).wide = true := by
+    decide
+  simp [routeStmt, route, calRule, this, interList]
+
+
+
+open GaeaVerif.RouteLit in
+/-- **C01 for joined tables over literals of every kind** (hash-like rules):
+    `join_route_sound` with the literals of the ON and WHERE conditions given by
+    kind and value; the family lemmas (`num_placed`, `big_placed`,
+    `ksHash_placed_int`, `strcol_placed`, `text_placed_int_partial`) discharge
+    `Placed` as in the single-table instances. -/
+theorem litkinds_join_route_sound (fam : Fam) (ct : ColType) (find : ShardPlace.Key → ShardPlace.Out Int)
+    (eqs : ShardPlace.Key → Int → Bool) (pv : Int → Int) (idxs : List Int) (hs : Sorted idxs)
+    (i : Int) (hi : i ∈ idxs) (vals : Nat → Option Int) (hv : ValsOK (fun _ => True) pv i vals)
+    (env : JCond → Option Bool) (joins : List JoinStep) (wh : Option JCond)
+    (hc : ∃ qs : List SqlLit, joinsLits joins ++ optLits wh = qs.map (litOf fam ct find eqs) ∧
+      ∀ q ∈ qs, Placed fam ct find pv q)
+    (is : List Int) (h : routeJoinStmt (hashRule idxs) joins wh = some is)
+    (hin : inJoin env vals joins) (hwh : ∀ c, wh = some c → evalJ env vals c = some true) : i ∈ is := by
+  obtain ⟨qs, hqs, hpl⟩ := hc
+  have hb := sorted_bounds idxs hs i hi
+  exact join_route_sound (fun _ => True) (hashRule idxs) pv i env vals ⟨hs, hi, hb.1, hb.2⟩ hv joins wh
+    (hqs ▸ (litsOK_of_placed (hashRule idxs) rfl fam ct find eqs pv qs hpl).on) is h hin hwh
+
+open GaeaVerif.RouteLit in
+/-- … and for `range` rules: joined tables, literals of every kind, no residual hypothesis -/
+theorem range_join_route_sound_kinds (limit n : Int) (hlim : 0 < limit) (i : Int) (hi : 0 ≤ i ∧ i < n)
+    (vals : Nat → Option Int) (hv : ValsOK (fun _ => True) (· / limit) i vals)
+    (env : JCond → Option Bool) (joins : List JoinStep) (wh : Option JCond)
+    (hc : ∃ qs : List SqlLit, (∀ q ∈ qs, q.wf) ∧
+      joinsLits joins ++ optLits wh = qs.map (litOf .num .int (rangeFind limit n) (rangeEqs limit)))
+    (is : List Int) (h : routeJoinStmt (rangeRule n) joins wh = some is)
+    (hin : inJoin env vals joins) (hwh : ∀ c, wh = some c → evalJ env vals c = some true) : i ∈ is := by
+  obtain ⟨qs, hwf, hqs⟩ := hc
+  have ht : TableOK (rangeRule n) i :=
+    ⟨makeList_sorted _ _, by simp only [rangeRule]; rw [makeList_mem]; exact hi, hi.1, by simp only [rangeRule]; omega⟩
+  exact join_route_sound (fun _ => True) (rangeRule n) (· / limit) i env vals ht hv joins wh
+    (hqs ▸ (range_litsOK_kinds limit n hlim qs hwf).on) is h hin hwh
+
+
+/-! #### non-vacuity of the literal-kind instances -/
+
+set_option maxRecDepth 10000 in
+open GaeaVerif.RouteLit GaeaVerif.InsertStored GaeaVerif.ShardGo in
+/-- the kingshard `mod` rule with 3 tables is an instance of `num_rules_route_sound`
+    (`ModShard.FindForKey n` is `viaNum …` by definition); `'+7'` is read by the
+    rule and placed with 7, `' 7'` and `'7.0'` denote 7 and keep every table,
+    `'abc'` keeps every table -/
+example :
+    ModShard.FindForKey 3 = viaNum (fun v => if 3 = 0 then .panic else .ok (hackAbs (Int.tmod v 3))) ∧
+    litOf .num .int (ModShard.FindForKey 3) (fun _ _ => false) (.str [43, 55]) =
+      { rank := some 7, place := some 1, eqStart := false } ∧
+    litOf .num .int (ModShard.FindForKey 3) (fun _ _ => false) (.int 7) =
+      { rank := some 7, place := some 1, eqStart := false } ∧
+    litOf .num .int (ModShard.FindForKey 3) (fun _ _ => false) (.str [32, 55]) =
+      { rank := some 7, place := none, eqStart := false, wide := true } ∧
+    litOf .num .int (ModShard.FindForKey 3) (fun _ _ => false) (.str [55, 46, 48]) =
+      { rank := some 7, place := none, eqStart := false, wide := true } ∧
+    litOf .num .int (ModShard.FindForKey 3) (fun _ _ => false) (.str [97, 98, 99]) =
+      { rank := none, place := none, eqStart := false, wide := true } ∧
+    pvNum (fun v => if 3 = 0 then .panic else .ok (hackAbs (Int.tmod v 3))) 7 = 1 := by
+  refine ⟨rfl, ?_⟩
+  decide
+
+set_option maxRecDepth 10000 in
+open GaeaVerif.RouteLit GaeaVerif.InsertStored GaeaVerif.ShardGo in
+/-- the kingshard `hash` rule with 4 tables (`hash_route_sound_intcol`,
+    `strcol_route_sound`): `'007'` goes with 7, `' 7'` and `'7e0'` denote 7 and
+    keep every table; on a string column `'abc'` is placed by its checksum,
+    where the row `abc` lives, and `x'616263'` denotes the same bytes -/
+example :
+    litOf .hash .int (HashShard.FindForKey 4) (fun _ _ => false) (.str [48, 48, 55]) =
+      { rank := some 7, place := some 3, eqStart := false } ∧
+    litOf .hash .int (HashShard.FindForKey 4) (fun _ _ => false) (.str [32, 55]) =
+      { rank := some 7, place := none, eqStart := false, wide := true } ∧
+    litOf .hash .int (HashShard.FindForKey 4) (fun _ _ => false) (.str [55, 101, 48]) =
+      { rank := some 7, place := none, eqStart := false, wide := true } ∧
+    pvHash 4 7 = 3 ∧
+    litOf .hash .str (HashShard.FindForKey 4) (fun _ _ => false) (.str [97, 98, 99]) =
+      { rank := some (encodeStr [97, 98, 99] : Nat), place := some 2, eqStart := false } ∧
+    (litOf .hash .str (HashShard.FindForKey 4) (fun _ _ => false) (.hex [97, 98, 99])).rank =
+      some (encodeStr [97, 98, 99] : Nat) ∧
+    pvStrCol (HashShard.FindForKey 4) (encodeStr [97, 98, 99] : Nat) = 2 := by
+  decide
+
+set_option maxRecDepth 10000 in
+open GaeaVerif.RouteLit GaeaVerif.InsertStored GaeaVerif.ShardGo in
+/-- `k = '007' OR k IN (' 7', 1)`: the tables of 7 and 1 are not
+    enough — `' 7'` keeps every table of a hash rule -/
+example :
+    let f := litOf .hash .int (HashShard.FindForKey 4) (fun _ _ => false)
+    let c := Cond.or (.cmp true false .eq (f (.str [48, 48, 55])))
+      (.inList true false [f (.str [32, 55]), f (.int 1)])
+    routeStmt (hashRule [0, 1, 2, 3]) (some c) = some [0, 1, 2, 3] ∧
+    routeStmt (hashRule [0, 1, 2, 3]) (some (.cmp true false .eq (f (.str [48, 48, 55])))) = some [3] ∧
+    eval (fun _ => none) 7 c = some true := by
+  refine ⟨?_, ?_, by decide⟩
+  · have h1 : (litOf .hash .int (HashShard.FindForKey 4) (fun _ _ => false) (.str [32, 55])).wide = true := by
+      decide
+    have h2 : litOf .hash .int (HashShard.FindForKey 4) (fun _ _ => false) (.str [48, 48, 55]) =
+        { rank := some 7, place := some 3, eqStart := false } := by decide
+    simp [routeStmt, route, hashRule, h1, h2, findTableIndexes, mergeOr, unionList, interList]
+  · have h2 : litOf .hash .int (HashShard.FindForKey 4) (fun _ _ => false) (.str [48, 48, 55]) =
+        { rank := some 7, place := some 3, eqStart := false } := by decide
+    simp [routeStmt, route, hashRule, h2, findTableIndexes, interList]
+
+/-! #### a value stored through the proxy is found by a query written with the same literal -/
+
+open GaeaVerif.RouteLit GaeaVerif.InsertStored in
+/-- **An inserted sharding literal is routed by when it is written in a WHERE.**
+    C03's `insert_findable` sends the point query `k = literal` to exactly the
+    table of the row provided the planner asks the rule to place the literal
+    (`wide = false`).  That holds for every literal an INSERT is accepted with:
+    integer literals always; a string on a `hash` rule because
+    `getInsertShardingValue` accepts exactly the strings `getShardingCompareValue`
+    hands on; a string on an integer rule or on mycat_mod because the rule placed
+    it (it read it as an integer); on every other rule strings are handed on. -/
+theorem stored_literal_routed :
+    (∀ fam v, compareValue fam (.int v) = some (.int64 v)) ∧ (∀ fam v, compareValue fam (.uint v) = some (.uint64 v)) ∧
+    (∀ s, Insert.shardingValueOk Insert.head "hash" (.str s) = true → compareValue .hash (.str s) = some (.str s)) ∧
+    (∀ (f : Int → ShardPlace.Out Int) s i, viaNum f (.str s) = .ok i → compareValue .num (.str s) = some (.str s)) ∧
+    (∀ (g : Int → ShardPlace.Out Int) s i, viaBig g (.str s) = .ok i → compareValue .big (.str s) = some (.str s)) ∧
+    (∀ s, compareValue .text (.str s) = some (.str s) ∧ compareValue .date (.str s) = some (.str s)) := by
+  refine ⟨fun _ _ => rfl, fun _ _ => rfl, ?_, ?_, ?_, fun _ => ⟨rfl, rfl⟩⟩
+  · intro s h
+    simp only [Insert.shardingValueOk, Insert.head, Bool.false_or, bne_self_eq_false, Insert.hashStringOk] at h
+    simp only [compareValue]
+    cases hp : Insert.parseUint64 s with
+    | some m => simp
+    | none => simp [hp] at h; simp [h]
+  · intro f s i h
+    simp only [viaNum, ShardPlace.NumValue] at h
+    simp only [compareValue]
+    cases hp : ShardGo.parseInt64 s with
+    | some m => simp
+    | none => simp [hp] at h
+  · intro g s i h
+    simp only [viaBig, viaStr, ShardPlace.GetString] at h
+    simp only [compareValue]
+    cases hp : ShardGo.parseBigDec s with
+    | some m => simp
+    | none => simp [hp] at h
+
 /-! ### The operator dispatch of the source, read by the translator, is the model's -/
 
 /-- the model's `findTableIndexes` is its dispatch table run -/
@@ -1474,6 +2220,37 @@ theorem join_prune_tied (restricts has : Bool) (tp : JoinTp) :
     Gen.c01JoinLeftRestricts restricts tp.goName = (restricts && tp != .right) ∧
     Gen.c01OnInter has (Gen.c01JoinOnPrunes restricts tp.goName) = (has && (restricts && tp == .inner)) := by
   cases restricts <;> cases has <;> cases tp <;> decide
+
+open GaeaVerif.RouteLit in
+/-- **`getShardingCompareValue` of the source is the model's `compareValue`**:
+    the literal kinds whose value is handed to the rule, what every other kind
+    returns (not routable, no error), the rule types with a test on strings and
+    the tests themselves, as the translator reads them from
+    proxy/plan/plan_select.go on every run; and the model's `compareValue` is
+    "a string is not routed by exactly when the test of its family holds". -/
+theorem compare_value_tied :
+    Gen.c01RoutedKinds = routedKinds ∧ Gen.c01UnroutedKind = "return nil, false, nil" ∧
+    Gen.c01StringRules = stringRules ∧ Gen.c01RoutedReturn = "return v, true, nil" ∧
+    (∀ (fam : Fam) (s : ShardGo.GoStr),
+      compareValue fam (.str s) = if fam.stringTest s then none else some (.str s)) ∧
+    (∀ fam : Fam, fam.goCase = none → ∀ s, fam.stringTest s = false) := by
+  refine ⟨by decide, by decide, by decide, by decide, ?_, ?_⟩
+  · intro fam s
+    cases fam <;> simp [compareValue, Fam.stringTest]
+  · intro fam h s
+    cases fam <;> simp [Fam.goCase] at h <;> rfl
+
+open GaeaVerif.RouteLit in
+/-- the family the driver reads from `rule.GetType()` (`Fam.ofType`) is the
+    `case` of the source that names the constant with that value: for every rule
+    type constant of proxy/router/rule.go, the constant is listed in the case
+    of its family, or in no case when its family has none -/
+theorem rule_type_family_tied :
+    Gen.c01RuleTypes.all (fun (name, value) =>
+      match (Fam.ofType value).goCase with
+      | some (names, _) => names.contains name
+      | none => stringRules.all fun (names, _) => !names.contains name) = true := by
+  decide
 
 /-- `route_inv` relative to `V` (from the invariant of the joined form). -/
 theorem route_inv_on (V : Int → Prop) (r : Rule) (pv : Int → Int) (x : Int) (env : Cond → Option Bool)
